@@ -6,8 +6,10 @@ and the theorems are re-checked against them; __init__/add_fragment/sample/merge
 find_open_bonds/sort_nodes_by_attr/set_atom_names_atomistic are hand-modelled (Sample/SampleImpl.v)
 and compared with the implementation on every run.  Randomness is explicit: the harness wraps
 random.choice / random.choices (module `random` as used by sample.py), records the INDEX picked at
-every call and feeds the recorded indices to the model.  rebuild_h_atoms (pysmiles) is a transcript:
-the graph before and after it are recorded, the contract between them is checked in Coq.
+every call and feeds the recorded indices to the model.  The finalisation is modelled on the networkx
+graph itself (node and adjacency orders): rebuild_h_atoms by the Hydro model (only pysmiles'
+correct_aromatic_rings is a recorded transcript with a checked contract), sort_nodes_by_attr and
+the naming by the Resolve models.
 
 This module also holds the harness shared with C17 (tools/props/c17.py imports it)."""
 import copy
@@ -69,6 +71,13 @@ def graph_obs(g):
             'edges': [[u, v, {k: w for k, w in d.items() if k not in SKIP_EDGE}] for u, v, d in g.edges(data=True)]}
 
 
+def graph_nx(g):
+    """networkx state with node order and adjacency order: [[key, attrs, [[nbr, edge attrs], ...]], ...]"""
+    return [[n, {k: v for k, v in d.items() if k not in SKIP_NODE},
+             [[w, {k: x for k, x in ed.items() if k not in SKIP_EDGE}] for w, ed in g._adj[n].items()]]
+            for n, d in g._node.items()]
+
+
 def build_fragments(case):
     from cgsmiles.read_fragments import read_fragments
     return read_fragments(case['frags'], all_atom=case['aa'])
@@ -118,30 +127,44 @@ def run_sampler(case, objects=None):
         calls[-1][2] = res[1]
         return res
 
-    def rebuild_h(mol, *a, **kw):
-        snaps['pre'] = graph_obs(mol)
-        snaps['stage'] = 2
-        r = orig_h(mol, *a, **kw)
-        snaps['post'] = graph_obs(mol)
+    import pysmiles.smiles_helper as psh
+    orig_car = psh.correct_aromatic_rings
+
+    def car_wrapper(mol, *a, **kw):
+        r = orig_car(mol, *a, **kw)
+        if snaps.get('in_h') and 'car' not in snaps:
+            snaps['car'] = graph_nx(mol)
         return r
+
+    def rebuild_h(mol, *a, **kw):
+        snaps['pre'] = graph_nx(mol)
+        snaps['stage'] = 2
+        snaps['in_h'] = True
+        try:
+            return orig_h(mol, *a, **kw)
+        finally:
+            snaps['in_h'] = False
 
     def sort_nodes(graph, *a, **kw):
         if 'pre' not in snaps:
-            snaps['pre'] = graph_obs(graph)
+            snaps['pre'] = graph_nx(graph)
         snaps['stage'] = 2
         return orig_sort(graph, *a, **kw)
 
     sampler.add_fragment = add_fragment
     smod.rebuild_h_atoms, smod.sort_nodes_by_attr = rebuild_h, sort_nodes
+    psh.correct_aromatic_rings = car_wrapper
     try:
         with rec:
             try:
                 mol = sampler.sample(case['target'], start_fragment=case.get('start'))
                 out['final'] = graph_obs(mol)
+                out['final_nx'] = graph_nx(mol)
             except Exception as exc:
                 out['exc'] = (type(exc).__name__, snaps.get('stage', 1))
     finally:
         smod.rebuild_h_atoms, smod.sort_nodes_by_attr = orig_h, orig_sort
+        psh.correct_aromatic_rings = orig_car
         del sampler.add_fragment
     first = calls[0][1] if calls else len(rec.picks)
     out['picks0'] = [i for _, i, _ in rec.picks[:first]]
@@ -151,7 +174,7 @@ def run_sampler(case, objects=None):
     out['added'] = [c[2] for c in calls if c[2] is not None]
     out['unrecorded'] = rec.unrecorded
     out['pre'] = snaps.get('pre')
-    out['post'] = snaps.get('post')
+    out['car'] = snaps.get('car')
     return out
 
 
@@ -172,10 +195,12 @@ def attrs_lit(d, edge=False):
     return lit.lst(items)
 
 
-def og_lit(g):
-    nodes = lit.lst([lit.pair(lit.z(n), attrs_lit(d)) for n, d in g['nodes']])
-    edges = lit.lst(['(%s, %s, %s)' % (lit.z(u), lit.z(v), attrs_lit(d, edge=True)) for u, v, d in g['edges']])
-    return '(%s, %s)' % (nodes, edges)
+def nx_lit(g):
+    recs = []
+    for n, d, adj in g:
+        recs.append('{| nk := %s; na := %s; nadj := %s |}'
+                    % (lit.z(n), attrs_lit(d), lit.lst([lit.pair(lit.z(w), attrs_lit(ed, edge=True)) for w, ed in adj])))
+    return lit.lst(recs)
 
 
 def template_lit(g):
@@ -216,7 +241,7 @@ def case_lit(case, impl, det=()):
     if 'exc' in impl:
         outc = '(OExc %s %s)' % (lit.s(impl['exc'][0]), lit.nat(impl['exc'][1]))
     else:
-        outc = '(ODone %s %s %s)' % (og_lit(impl['pre']), lit.opt(impl.get('post'), og_lit), og_lit(impl['final']))
+        outc = '(ODone %s %s %s)' % (nx_lit(impl['pre']), lit.opt(impl.get('car'), nx_lit), nx_lit(impl['final_nx']))
     obs = lit.lst([lit.lst([lit.pair(lit.s(k), lit.lst([lit.z(x) for x in v])) for k, v in ob.items()])
                    for ob in impl.get('obs', [])])
     masses = case.get('masses')
@@ -263,9 +288,12 @@ def rand_case(rng, mode=None):
     labels = rng.choice([('',), ('', 'A'), ('', '', 'A', 'B'), ('A', 'B', 'C')])
     syms = rng.choice([('',), ('', '', '', '='), ('', '', '=', '#')])
     pool = AA_SKELETONS if aa else gens.CG_SKELETONS
+    aromatic = aa and rng.random() < 0.08      # aromatic rings: the mass model does not cover them -> user masses
     defs = []
     for nm in names:
         sk = rng.choice(pool)
+        if aromatic and rng.random() < 0.6:
+            sk = rng.choice(['c1ccccc1', 'Cc1ccccc1', 'c1ccncc1'])
         nd = rng.choice([1, 1, 2, 2, 3, 4]) if rng.random() < 0.95 else 0
         defs.append('#%s=%s' % (nm, gens.decorate(rng, sk, nd, kinds=kinds, labels=labels, syms=syms)))
     # make growth possible most of the time: a '>'/'<' descriptor usually gets its complement somewhere
@@ -312,7 +340,7 @@ def rand_case(rng, mode=None):
     term = []
     if descs and rng.random() < 0.4:
         term = [user_key(rng, d) for d in rng.sample(descs, rng.randint(1, min(2, len(descs))))]
-    if aa and rng.random() < 0.65:
+    if aa and not aromatic and rng.random() < 0.65:
         masses = None
     elif not aa and rng.random() < 0.04:
         masses = None
@@ -363,7 +391,7 @@ class SamplerProp(common.Prop):
     vo_deps = ['theories/Sample/SampleCheck.vo']
     case_requires = ('From Coq Require Import String.\nFrom Coq Require Import List Ascii ZArith Bool.\n'
                      'From Coq Require Import Floats.PrimFloat.\n'
-                     'From CGV Require Import Base.PyBase Base.PyVal Sample.SampleImpl Sample.SampleCheck.')
+                     'From CGV Require Import Base.PyBase Base.PyVal Base.NxGraph Sample.SampleImpl Sample.SampleCheck.')
     corr_fn = 'corr_ok'
     shard = 25
     quick_cases = 400
